@@ -36,6 +36,17 @@ func (f *Frame) run(args []T, st State, path T) (results []T, outSt State, outPa
 		}
 	}
 	for _, fv := range fn.FreeVars {
+		if bv, ok := f.freeBind[fv]; ok && f.freeFrom != nil {
+			// the captured variable is the caller's value (a pointer to the shared cell, or a plain value)
+			f.vals[fv] = f.freeFrom.val(bv)
+			if lv, ok := f.freeFrom.lvs[bv]; ok {
+				f.lvs[fv] = lv
+			}
+			if st, ok := f.freeFrom.structs[bv]; ok {
+				f.structs[fv] = st
+			}
+			continue
+		}
 		f.freshVal(fv)
 		f.enc.note("%s: free variable %s unconstrained", f.fname, fv.Name())
 	}
